@@ -299,21 +299,21 @@ type MessageSet struct {
 }
 
 type RecordHeader struct {
-	HeaderKeyLength   int8   `json:"headerKeyLength"`
+	HeaderKeyLength   int64  `json:"headerKeyLength"`
 	HeaderKey         string `json:"headerKey"`
-	HeaderValueLength int8   `json:"headerValueLength"`
+	HeaderValueLength int64  `json:"headerValueLength"`
 	Value             string `json:"value"`
 }
 
-// Record is kafka record type
+// Record is kafka record type (lengths and deltas are varints on the wire)
 type RecordV0 struct {
-	Unknown        int8           `json:"unknown"`
+	Unknown        int64          `json:"unknown"`
 	Attributes     int8           `json:"attributes"`
-	TimestampDelta int8           `json:"timestampDelta"`
-	OffsetDelta    int8           `json:"offsetDelta"`
-	KeyLength      int8           `json:"keyLength"`
+	TimestampDelta int64          `json:"timestampDelta"`
+	OffsetDelta    int64          `json:"offsetDelta"`
+	KeyLength      int64          `json:"keyLength"`
 	Key            string         `json:"key"`
-	ValueLen       int8           `json:"valueLen"`
+	ValueLen       int64          `json:"valueLen"`
 	Value          string         `json:"value"`
 	Headers        []RecordHeader `json:"headers"`
 }
